@@ -271,7 +271,8 @@ def rand_ballot(rng, n, full_p=0.4):
 
 
 def gen_profile(rng, n, maxb=60):
-    style = rng.choice(["uniform", "types", "types", "tie", "close", "dominant", "blank", "tiny", "cycle"])
+    style = rng.choice(["uniform", "types", "types", "tie", "tie", "tiefav", "close", "dominant", "blank", "tiny", "cycle",
+                        "spatial", "ladder"])
     nb = rng.randint(1, maxb)
     types = {}
 
@@ -296,6 +297,36 @@ def gen_profile(rng, n, maxb=60):
             add(tuple(sw.get(c, c) for c in x))
         if rng.random() < 0.4:
             add(rand_ballot(rng, n))
+    elif style == "tiefav":
+        # two candidates tie at every round (profile symmetric under swapping them) while a third is well ahead:
+        # audits that are possible although some outcome suffixes have no assertion of their own
+        a, b = rng.sample(range(n), 2)
+        sw = {a: b, b: a}
+        rest = [c for c in range(n) if c not in (a, b)]
+        fav = rng.choice(rest) if rest else a
+        for _ in range(max(1, nb // 4)):
+            x = rand_ballot(rng, n)
+            add(x)
+            add(tuple(sw.get(c, c) for c in x))
+        for _ in range(rng.randint(1, 3)):
+            x = (fav,) + tuple(rng.sample([d for d in range(n) if d != fav], rng.randint(0, n - 1)))
+            k = rng.randint(1, max(1, nb // 6))
+            add(x, k)
+            add(tuple(sw.get(c, c) for c in x), k)
+    elif style == "spatial":
+        # voters and candidates on a line, ballots rank by distance, truncated at random
+        pos = [rng.random() for _ in range(n)]
+        for _ in range(nb):
+            v = rng.random()
+            full = sorted(range(n), key=lambda c: abs(pos[c] - v))
+            add(tuple(full[:rng.randint(1, n)]) if rng.random() < 0.5 else tuple(full))
+    elif style == "ladder":
+        # a clear elimination order (tallies roughly doubling) with transfers going in random directions
+        perm = rng.sample(range(n), n)
+        for i, c in enumerate(perm):
+            k = max(1, (2 ** i) * max(1, nb // (2 ** n)) + rng.randint(-1, 1))
+            for _ in range(rng.randint(1, 3)):
+                add((c,) + tuple(rng.sample([d for d in range(n) if d != c], rng.randint(0, n - 1))), max(1, k // 2))
     elif style == "close":
         base = max(1, nb // n)
         for c in range(n):
